@@ -87,6 +87,20 @@ func checkC01(sc *SerCase, rec *evid.Rec) (vs []pbt.Violation) {
 		rec.Hist("mutation:" + what)
 		one("serialization after " + what)
 	}
+	if sc.ReparseType != "" && len(vs) == 0 && len(held) > 0 {
+		// the object is used to receive a message of another type (the decoder takes the
+		// MsgType from the wire) and is serialized again: what it now holds is that message
+		last := held[len(held)-1]
+		if ts, err := ref.Tokenize(last); err == nil && len(ts) >= 4 {
+			wire := ref.Assemble(sc.Tpl.Tags, sc.Tpl.Begin, sc.ReparseType, ts[3:len(ts)-1])
+			if perr, pan := parse(false, m, wire); pan == nil && perr == nil {
+				rec.Hist("reparsed-with-another-msgtype")
+				one("serialization after a message of type " + sc.ReparseType + " was parsed into the object")
+			} else {
+				rec.Hist("reparse-refused")
+			}
+		}
+	}
 	for i := range given {
 		if !bytes.Equal(given[i], held[i]) {
 			rec.Hist("earlier-output-changed")
